@@ -116,7 +116,7 @@ theorem missing_required_error (inp : Input) (profile : List Nat)
     unfold extractKey
     split
     · rfl
-    · simp [hl, hreq]
+    · simp [hl]
 
 /-- **C18 (4) a missing profile is an error**: without an explicit profile, `PX_PROFILE` unset
     fails, and so does a value that is not one of the profile names; no default profile exists. -/
@@ -139,5 +139,24 @@ theorem absent_profile_file_is_empty (inp : Input) (profile : List Nat)
     merge (merge (sources inp profile).1 (sources inp profile).2.1) (sources inp profile).2.2 =
       merge (sources inp profile).1 (sources inp profile).2.2 := by
   simp [sources, habs, merge_nil_right]
+
+
+/-- **C18 (5) `PX_PROFILE` is never a configuration key**: a variable named `PX_PROFILE` (any
+    letter case, surrounding blanks ignored, as `figment` reads names) yields no key path at all … -/
+theorem profile_var_yields_no_key (name : List Nat) (h : eqUncased (trim name) pxProfileVar = true) :
+    envKey name = none :=
+  envKey_profile name h
+
+/-- … so the environment source — hence the loaded configuration — is exactly what it would be
+    with every such variable removed from the environment, whatever its value. -/
+theorem profile_not_a_key (vars : List (List Nat × List Nat)) :
+    envSource vars = envSource (vars.filter (fun v => !eqUncased (trim v.1) pxProfileVar)) :=
+  envFold_filter_profile vars []
+
+example : envKey [80, 88, 95, 80, 82, 79, 70, 73, 76, 69] = none ∧            -- PX_PROFILE
+    envKey [112, 120, 95, 80, 114, 111, 102, 105, 108, 101] = none ∧          -- px_Profile
+    envKey [80, 88, 95, 83, 69, 82, 86, 69, 82, 95, 95, 80, 79, 82, 84] = some [[115, 101, 114, 118, 101, 114], [112, 111, 114, 116]] ∧  -- PX_SERVER__PORT
+    envKey [80, 88, 95, 80, 82, 79, 70, 73, 76, 69, 95, 95, 88] = some [[112, 114, 111, 102, 105, 108, 101], [120]] := by  -- PX_PROFILE__X is another variable
+  decide
 
 end Pxv.Config
